@@ -450,6 +450,7 @@ extern void pxgstrf_SetIWork (int_t, int_t, int_t *, int_t **, int_t **, int_t *
 		      int_t **, int_t **, int_t **, int_t **);
 extern void psgstrf_SetRWork (int_t, int_t, float *, float **, float **);
 extern void psgstrf_WorkFree (int_t *, float *, GlobalLU_t *);
+extern void psgstrf_WorkFreeAll (void);
 extern int_t  psgstrf_MemXpand (int_t, int_t, MemType, int_t *, GlobalLU_t *);
 
 extern int_t  *intMalloc (int_t);
